@@ -22,7 +22,7 @@ def sh(cmd, cwd=None, timeout=3600):
 
 def place_demo(wt, demo_src, ident):
     text = open(demo_src).read()
-    ap = re.search(r"APPEND this file to (src/[\w/]+\.rs)", text)
+    ap = re.search(r"APPEND this file to (src/[\w/]+\.rs)", text) or re.search(r"[Aa]ppend the whole content of this file to the END of\s+`?(src/[\w/]+\.rs)", text)
     if ap:
         # append-style unit-test demo for a crate-private layer
         host = os.path.join(wt, ap.group(1))
@@ -67,7 +67,25 @@ def main():
     patch = os.path.join(src, "patch.diff")
     demo = os.path.join(src, "demo.rs")
     meta = {"id": ident, "property": prop, "source": src, "at": time.strftime("%Y-%m-%dT%H:%M:%S"), "repo_head": sh("git -C /repo rev-parse --short HEAD")[1].strip()}
+    phase = "all"  # "confirm": scratch-worktree confirmation only (can run in parallel); "check": reuse the recorded confirmation
+    for i, a in enumerate(sys.argv):
+        if a == "--phase":
+            phase = sys.argv[i + 1]
+    out_dir0 = os.path.join("/verif/seeded", ident.replace("/", "_"))
+    three_way = False
+    if phase == "check":
+        meta = json.load(open(os.path.join(out_dir0, "meta.json")))
+        three_way = meta.get("three_way", False)
     wt = "/tmp/mt_%s" % ident.replace("/", "_")
+    if phase != "check":
+        return_code = confirm(meta, wt, patch, demo, ident)
+        if return_code:
+            return return_code
+        three_way = meta.get("three_way", False)
+    return finish(meta, phase, three_way, patch, demo, src, ident, checks, tier)
+
+
+def confirm(meta, wt, patch, demo, ident):
     sh("git -C /repo worktree remove --force %s" % wt)
     shutil.rmtree(wt, ignore_errors=True)
     rc, out = sh("git -C /repo worktree add --detach %s HEAD" % wt)
@@ -83,6 +101,7 @@ def main():
                 meta["apply_output"] = out[-800:]
                 print(json.dumps(meta, indent=1))
                 return 3
+        meta["three_way"] = three_way
         rel, test_cmd = place_demo(wt, demo, ident)
         rc0, out0 = sh(test_cmd, cwd=wt)
         meta["demo_without_patch"] = "pass" if rc0 == 0 else "FAIL"
@@ -103,9 +122,13 @@ def main():
     finally:
         sh("git -C /repo worktree remove --force %s" % wt)
         shutil.rmtree(wt, ignore_errors=True)
+    return 0
+
+
+def finish(meta, phase, three_way, patch, demo, src, ident, checks, tier):
     # ---- the checks against the patched /repo
     results = {}
-    if meta.get("confirmed"):
+    if meta.get("confirmed") and phase != "confirm":
         rc, out = sh("git -C /repo status --porcelain --untracked-files=no")
         if out.strip():
             print("refusing: /repo has uncommitted changes", file=sys.stderr)
